@@ -10,7 +10,7 @@ THEOREMS = [f"Nice.Props.C07.{t}" for t in (
     "C07_append_fits_or_unchanged", "C07_no_write_outside", "C07_no_write_outside_bytes",
     "C07_init_no_fault", "C07_finished_is_wellformed", "C07_roundtrip_32", "C07_roundtrip_64",
     "C07_roundtrip_flag", "C07_roundtrip_bytes", "C07_roundtrip_addr", "C07_xor_involution",
-    "C07_roundtrip_error")]
+    "C07_roundtrip_error", "C07_finish_len", "C07_finished_message_wellformed")]
 TRUSTED = [
     "Lean 4 kernel; axioms allowed: propext, Classical.choice, Quot.sound (audited by #print axioms on every run)",
     "hand-written model Nice/Model/Stun/{Basic,Find,Append,Agent}.lean of stun/stunmessage.c, stun5389.c, utils.c, "
@@ -208,7 +208,7 @@ def sessions_for(tier, rng):
         sessions.append(s)
         kinds[kind] = kinds.get(kind, 0) + 1
     quick = tier == "quick"
-    for _ in range(3000 if quick else 30000):
+    for _ in range(9000 if quick else 60000):
         add("random-seq", gen_session(rng))
     # all classes x a method set x 4 compat modes (+ no agent) x sampled flags, with and without key
     methods = [1, 3, 4, 6, 9, 0xfff] if quick else [0, 1, 2, 3, 4, 5, 6, 7, 8, 9, 0x80, 0xfff]
@@ -218,10 +218,10 @@ def sessions_for(tier, rng):
                 for wk in (False, True):
                     flags = rng.choice([0, S.F_SHORT, S.F_LONG, S.F_FPR | S.F_SHORT, S.F_NOALIGN, rng.randrange(512)])
                     add("class-method-compat", gen_session(rng, cls, method, (compat, flags), None, wk))
-    for _ in range(600 if quick else 8000):
+    for _ in range(2000 if quick else 12000):
         add("usage-builders", gen_usage_session(rng))
     # every cap 0..2048 (thorough: for 200 sequences; quick: one pass with a stride)
-    step = 7 if quick else 1
+    step = 3 if quick else 1
     for rep in range(1 if quick else 8):
         for cap in range(0, 2049, step):
             add("cap-sweep", gen_session(rng, cap=cap))
